@@ -736,11 +736,16 @@ class Request(interfaces.Request, BaseUnicastRequest):
             return
 
         if first_event.is_last:
-            self.observation.error(error.NotObservable())
+            # The application may have cancelled the observation already
+            # (while still being interested in the response); a cancelled
+            # observation takes no more events.
+            if not self.observation.cancelled:
+                self.observation.error(error.NotObservable())
             return
 
         if first_event.message.opt.observe is None:
-            self.observation.error(error.NotObservable())
+            if not self.observation.cancelled:
+                self.observation.error(error.NotObservable())
             self.log.error(
                 "Pipe indicated more possible responses"
                 " while the Request handler would not know what to"
@@ -866,7 +871,8 @@ class BlockwiseRequest(BaseUnicastRequest, interfaces.Request):
             obs = weak_observation()
             if app_request.opt.observe is not None and obs is not None:
                 logged = True
-                obs.error(e)
+                if not obs.cancelled:
+                    obs.error(e)
             if not logged:
                 # should be unreachable
                 log.error(
@@ -1020,7 +1026,7 @@ class BlockwiseRequest(BaseUnicastRequest, interfaces.Request):
                 lower_observation = blockrequest.observation
             else:
                 obs = weak_observation()
-                if obs:
+                if obs and not obs.cancelled:
                     obs.error(error.NotObservable())
                 del obs
 
